@@ -222,6 +222,9 @@ def run(prog, rep, tier):
     r02_5(prog, rep)
     r02_6(prog, rep)
     r02_7(prog, rep, body)
+    # R02.8: the repair loop reads Ok(0) as the end of a block -- the fail-safe decompressor never reports 0 mid-stream (same rule as R13.4)
+    from .c13 import decoder_zero_count_rule
+    decoder_zero_count_rule(prog, rep, 'R02.8')
 
 
 EXACT_READS = {'read_exact', 'read_u8', 'read_u16', 'read_u32', 'read_u64', 'read_u128', 'read_i8', 'read_i16', 'read_i32', 'read_i64',
